@@ -17,7 +17,7 @@ LEVEL = "exploration"
 TECHNIQUE = ("runtime monitoring: call-log exactly-once/never-else monitor + per-slot oracle "
              "(encoded value or all-null placeholder of the right shape) against a sparse reference grid")
 RULE = ("seeded case sets (1-4 case args, 1-8 distinct cases sharing coordinates, dict/tuple/single-dict "
-        "spelling, keys in varying order; argument values incl. bool/numpy scalars/odd strings, and one argument mixing numbers and strings whose union cannot be sorted) x optional sub-grids x result kinds (int/float/bool/str/complex/tuple/"
+        "spelling, keys in varying order; argument values incl. bool/numpy scalars/odd strings, and one argument mixing numbers and strings whose union cannot be sorted) given as list / tuple / iterator / generator / zip; overlap requests in dict and positional spelling) x optional sub-grids x result kinds (int/float/bool/str/complex/tuple/"
         "nested list/ndarray/mixed/dict/Dataset/DataArray) x shuffle x flat x split x entry point "
         "(combo_runner, case_runner); distinct by (case-set shape, union sizes, sub-grid shape, kind, options), "
         "non-trivial when at least one slot of the grid is un-requested or >= 2 settings run")
